@@ -44,6 +44,7 @@ type ConnCfg struct {
 	Pipelining bool `json:"pipe,omitempty"`
 	DirectIO   bool `json:"direct,omitempty"`
 	NoCopy     bool `json:"nocopy,omitempty"`
+	DirectSet  int  `json:"dset,omitempty"`   // 0: SetDirectIO not called, 1: SetDirectIO(true), 2: SetDirectIO(false) (unbuffered writes)
 	BufferSize int  `json:"buf,omitempty"`    // Options.ClientBufferSize
 	SetBuf     int  `json:"setbuf,omitempty"` // Conn.SetBufferSize after dial (0 = not called)
 }
@@ -120,6 +121,7 @@ type CallRec struct {
 	Arg      uint32
 	Size     int
 	Rep      int
+	Timeout  int
 	Invoke   uint64
 	Return   uint64 // 0 = never returned / never signalled
 	Returned bool
@@ -144,6 +146,7 @@ type CallRec struct {
 	errObj   error
 	wireErr  string
 	NumCallsBefore, NumCallsAfter int
+	Alone bool // no other call of any client was outstanding on the connection around this call
 }
 
 type ExecRec struct {
@@ -189,6 +192,7 @@ type StreamRec struct {
 	ClientBlocked bool
 	CloseErr string
 	Closed bool
+	AfterRead, AfterWrite string
 	stream rpc.Stream
 }
 
@@ -216,6 +220,10 @@ type World struct {
 	listenErr []string
 	Notes    []string
 	SimEnd   time.Duration
+	LiveAtEnd []simrt.GInfo
+	byID     map[uint64]*CallRec
+	opIdx    map[int]int
+	Arrivals map[int][]uint64 // client -> call ids in the order they arrived on its shared Done channel
 }
 
 func (w *World) Violate(oracle, sig, detail string) {
